@@ -105,3 +105,108 @@ def fill_rule(prog, chk, rule, unit_prefixes, floor=1):
                                                                             else ": count not derived from one length register")),
                    key="%s %s fill@%d" % (rule, src, start))
     chk.floor(rule, "`rep stos` / `rep movs` sequences in the assembly units", n, floor)
+
+
+# ---- register dependence in a straight-line segment (the freeze decision of fe51_pack.S) ---------------------------------------
+_R64 = {"eax": "rax", "ebx": "rbx", "ecx": "rcx", "edx": "rdx", "esi": "rsi", "edi": "rdi", "al": "rax", "bl": "rbx", "cl": "rcx", "dl": "rdx"}
+
+
+def _reg(tok):
+    tok = tok.strip()
+    if not tok.startswith("%"):
+        return None
+    r = tok[1:]
+    if re.match(r"r\d+[dwb]$", r):
+        r = r[:-1]
+    return _R64.get(r, r)
+
+
+def mask_dependence(path):
+    """-> (limb registers loaded from the input at function entry, [(line number, mask register, registers the mask depends on)])
+    for every `neg %R` that follows a run of cmp / cmov in a label-free segment. Dependences are tracked through mov, two-operand
+    ALU instructions, cmp -> flags and cmov <- flags; every register starts the segment as its own source."""
+    with open(path) as f:
+        lines = f.read().split("\n")
+    limbs = []
+    out = []
+    deps, flags = None, set()
+    entry = True
+    for ln, raw in enumerate(lines, 1):
+        line = raw.split("#")[0].strip() if not raw.lstrip().startswith(("#", "/*", "*")) else ""
+        if not line or line.startswith("."):
+            if line.endswith(":"):
+                deps, flags, entry = {}, set(), False
+            continue
+        if line.endswith(":"):
+            if not line.startswith(("fe51", "_fe51")):
+                entry = False
+            deps, flags = {}, set()
+            continue
+        m = re.match(r"^(\w+)\s*(.*)$", line)
+        mn, rest = m.group(1), m.group(2)
+        args = [a.strip() for a in re.split(r",(?![^()]*\))", rest)] if rest else []
+        if re.match(r"^j[a-z]+$", mn):
+            deps, flags, entry = {}, set(), False
+            continue
+        if deps is None:
+            deps = {}
+
+        def d(r):
+            return deps.get(r, {r})
+        if entry and mn.startswith("mov") and len(args) == 2:
+            mm = re.match(r"^(\d+)\(%rsi\)$", args[0])
+            if mm and _reg(args[1]):
+                limbs.append(_reg(args[1]))
+        if mn.startswith("cmov") and len(args) == 2:
+            s_, t_ = _reg(args[0]), _reg(args[1])
+            if t_:
+                deps[t_] = set(d(t_)) | (set(d(s_)) if s_ else set()) | flags
+        elif mn.startswith("mov") and len(args) == 2:
+            s_, t_ = _reg(args[0]), _reg(args[1])
+            if t_:
+                deps[t_] = set(d(s_)) if s_ else set()
+        elif mn.startswith(("cmp", "test")) and len(args) == 2:
+            flags = set()
+            for a in args:
+                r = _reg(a)
+                if r:
+                    flags |= d(r)
+        elif mn.startswith("neg") and len(args) == 1:
+            r = _reg(args[0])
+            if r:
+                out.append((ln, r, set(d(r))))
+                flags = set(d(r))
+        elif mn.startswith("lea") and len(args) == 2:
+            t_ = _reg(args[1])
+            if t_:
+                deps[t_] = set().union(*[d(_reg("%" + x)) for x in re.findall(r"%(\w+)", args[0])] or [set()])
+        elif len(args) >= 2:
+            t_ = _reg(args[-1])
+            if t_:
+                acc = set(d(t_))
+                for a in args[:-1]:
+                    r = _reg(a)
+                    if r:
+                        acc |= d(r)
+                deps[t_] = acc
+                flags = set(acc)
+    return limbs, out
+
+
+def freeze_rule(prog, chk, rule, unit):
+    """the conditional final subtraction of p in fe51_pack (canonical encoding, "non-canonical coordinates reduced") is decided
+    by a mask that depends on all five limbs: h >= p needs limb 0 >= 2^51 - 19 and *every* other limb == 2^51 - 1"""
+    if not any(u.startswith(os.path.dirname(unit) + "/") for u in prog.asm_units):
+        chk.floor(rule, "freeze masks in %s" % unit, 0, 0)           # the assembly backend is not part of this configuration
+        return
+    limbs, masks = mask_dependence(os.path.join(SRCDIR, unit))
+    n = 0
+    for ln, r, ds in masks:
+        n += 1
+        missing = [x for x in limbs if x not in ds]
+        ok = len(limbs) == 5 and not missing
+        chk.ob(rule, "%s (assembly)" % unit, "the freeze mask %%%s negated at line %d depends on all five limbs (%s)" % (r, ln, ", ".join("%" + x for x in limbs)),
+               ok, loc="%s:%d" % (unit, ln), detail="" if ok else "no comparison of %s reaches the mask: values with that limb below 2^51 - 1 and "
+               "all compared limbs at their maximum are 'reduced' by subtracting p although they are smaller than p" %
+               ", ".join("%" + x for x in missing), key="%s %s freeze-mask" % (rule, unit))
+    chk.floor(rule, "freeze masks in %s" % unit, n, 1)
